@@ -1,9 +1,12 @@
 /-
 C13 — State grids are well formed and refinement nests them.   Property theorems only.
-Model: RpylibModel/Model/Grid.lean.  `Between mid` is the only thing assumed of the grid's cell-boundary
-function; `amid` (every grid but the probability-step grid) satisfies it (`amid_between`).
+Model: RpylibModel/Model/Grid.lean, RpylibModel/Model/GridCtor.lean (np.linspace, the root-searched uniform constructor).
+`Between mid` is the only thing assumed of the grid's cell-boundary function; `amid` (every grid but the
+probability-step grid) satisfies it (`amid_between`).  Helper lemmas: Proofs/Lemmas/C13Linspace.lean.
 -/
 import RpylibModel.Model.Grid
+import RpylibModel.Model.GridCtor
+import RpylibModel.Proofs.Lemmas.C13Linspace
 import Mathlib.Tactic.Linarith
 import Mathlib.Tactic.Ring
 import Mathlib.Tactic.FieldSimp
@@ -233,6 +236,343 @@ theorem creditAxis_sym_wellFormed (l a h r : Rat) (hla : l < a) (hah : a < -h) (
   refine ⟨?_, by simp [creditAxis], by unfold amid; ring⟩
   simp only [creditAxis, if_true, StrictInc, and_true]
   refine ⟨by linarith, by linarith, by linarith, by linarith, by linarith, by linarith, by linarith, by linarith⟩
+
+/-! ### np.linspace and the root-searched uniform constructor (spatial.py:148-164) -/
+
+/-- `np.linspace(a, b, n)`: n points; first point `a` (n ≥ 1); last point `b` (n ≥ 2; for n = 1 the only point is `a`
+    and `b` is ignored); interior points `a + k (b - a)/(n - 1)`; every point in `[a, b]`; strictly increasing. -/
+theorem linspace_closed_form (a b : Rat) (n : Nat) :
+    (linspace a b n).length = n ∧ (1 ≤ n → (linspace a b n)[0]? = some a) ∧
+    (2 ≤ n → (linspace a b n)[n - 1]? = some b) ∧ (n = 1 → linspace a b n = [a]) ∧
+    (∀ k, k + 1 < n → (linspace a b n)[k]? = some (a + (k : Rat) * ((b - a) / ((n - 1 : Nat) : Rat)))) ∧
+    (a ≤ b → ∀ x ∈ linspace a b n, a ≤ x ∧ x ≤ b) ∧ (a < b → StrictInc (linspace a b n)) :=
+  ⟨linspace_length a b n, linspace_head a b n, linspace_last a b n, fun h => by subst h; rfl,
+    fun k hk => linspace_interior a b n k hk, fun hab x hx => linspace_mem_bounds a b hab n x hx,
+    fun hab => linspace_strictInc a b hab n⟩
+
+/-- assembling `left | 0 | right` with pivot `len(left)` (the pattern of every constructor) under explicit side
+    conditions: both halves strictly increasing, the left one below and ending at `-h`, the right one above and
+    starting at `h`. -/
+theorem assemble_wellFormed (L R : List Rat) (h : Rat) (hh : 0 < h)
+    (hLs : StrictInc L) (hLb : ∀ x ∈ L, x ≤ -h) (hLne : 1 ≤ L.length) (hLlast : L[L.length - 1]? = some (-h))
+    (hRs : StrictInc R) (hRb : ∀ x ∈ R, h ≤ x) (hR0 : R[0]? = some h) :
+    StrictInc (L ++ [0] ++ R) ∧ (L ++ [0] ++ R)[L.length - 1]? = some (-h) ∧
+    (L ++ [0] ++ R)[L.length]? = some 0 ∧ (L ++ [0] ++ R)[L.length + 1]? = some h := by
+  refine ⟨?_, ?_, ?_, ?_⟩
+  · refine strictInc_append_of_lt _ _ (strictInc_append_of_lt L [0] hLs trivial ?_) hRs ?_
+    · intro a ha b hb
+      simp only [List.mem_singleton] at hb; subst hb
+      have := hLb a ha; linarith
+    · intro a ha b hb
+      have hb' := hRb b hb
+      rcases List.mem_append.mp ha with ha | ha
+      · have := hLb a ha; linarith
+      · simp only [List.mem_singleton] at ha; subst ha; linarith
+  · rw [List.append_assoc, List.getElem?_append_left (by omega)]; exact hLlast
+  · rw [List.append_assoc, List.getElem?_append_right (le_refl _)]; simp
+  · rw [List.append_assoc, List.getElem?_append_right (by omega)]
+    have : L.length + 1 - L.length = 1 := by omega
+    rw [this]; simpa using hR0
+
+theorem uniformAxisN_length (l r h : Rat) (nL nR : Nat) : (uniformAxisN l r h nL nR).length = nL + 1 + nR := by
+  simp [uniformAxisN, linspace_length]; omega
+
+/-- the recorded one-point / no-point sides, exactly: with `int(|l|/h) = 1` the left half is `[l]` (the neighbour of 0
+    is the truncation bound, not `-h`), with `int(|l|/h) = 0` there is no left half at all and 0 is the first point;
+    with `int(r/h) = 1` the right half is `[h]` (the axis ends at `h`, the bound `r` is dropped), with `int(r/h) = 0`
+    the axis ends at 0. -/
+theorem uniformAxisN_left_one (l r h : Rat) (nR : Nat) : uniformAxisN l r h 1 nR = l :: 0 :: linspace h r nR := rfl
+theorem uniformAxisN_left_zero (l r h : Rat) (nR : Nat) : uniformAxisN l r h 0 nR = 0 :: linspace h r nR := rfl
+theorem uniformAxisN_right_one (l r h : Rat) (nL : Nat) : uniformAxisN l r h nL 1 = linspace l (-h) nL ++ [0, h] := by
+  simp [uniformAxisN, linspace]
+theorem uniformAxisN_right_zero (l r h : Rat) (nL : Nat) : uniformAxisN l r h nL 0 = linspace l (-h) nL ++ [0] := by
+  simp [uniformAxisN, linspace]
+
+/-- the end points the grid reports as `truncations`, for every pair of counts -/
+theorem uniformAxisN_truncation (l r h : Rat) (nL nR : Nat) :
+    truncation (uniformAxisN l r h nL nR) =
+      some (if nL = 0 then 0 else l, if nR = 0 then 0 else if nR = 1 then h else r) := by
+  have hhead : (uniformAxisN l r h nL nR).head? = some (if nL = 0 then 0 else l) := by
+    match nL with
+    | 0 => rfl
+    | 1 => rfl
+    | n + 2 => simp [uniformAxisN, linspace, List.range_succ_eq_map]
+  have hlast : (uniformAxisN l r h nL nR).getLast? = some (if nR = 0 then 0 else if nR = 1 then h else r) := by
+    match nR with
+    | 0 => simp [uniformAxisN, linspace]
+    | 1 => simp [uniformAxisN, linspace]
+    | n + 2 =>
+      show (linspace l (-h) nL ++ [0] ++ (_ ++ [r])).getLast? = _
+      rw [← List.append_assoc, List.getLast?_concat]; simp
+  unfold truncation; rw [hhead, hlast]
+
+/-- the axis for counts that make it well formed -/
+theorem uniformAxisN_wellFormed (l r h : Rat) (nL nR : Nat) (hh : 0 < h)
+    (hL : (nL = 1 ∧ l = -h) ∨ (2 ≤ nL ∧ l < -h)) (hR : nR = 1 ∨ (2 ≤ nR ∧ h < r)) :
+    StrictInc (uniformAxisN l r h nL nR) ∧ (uniformAxisN l r h nL nR)[nL - 1]? = some (-h) ∧
+    (uniformAxisN l r h nL nR)[nL]? = some 0 ∧ (uniformAxisN l r h nL nR)[nL + 1]? = some h := by
+  have hlen := linspace_length l (-h) nL
+  have hLfacts : StrictInc (linspace l (-h) nL) ∧ (∀ x ∈ linspace l (-h) nL, x ≤ -h) ∧ 1 ≤ nL ∧
+      (linspace l (-h) nL)[nL - 1]? = some (-h) := by
+    rcases hL with ⟨h1, h2⟩ | ⟨h1, h2⟩
+    · subst h1; subst h2; refine ⟨trivial, ?_, le_refl _, rfl⟩
+      intro x hx; simp [linspace] at hx; linarith
+    · exact ⟨linspace_strictInc _ _ h2 _, fun x hx => (linspace_mem_bounds _ _ (le_of_lt h2) _ x hx).2, by omega,
+        linspace_last _ _ _ h1⟩
+  have hRfacts : StrictInc (linspace h r nR) ∧ (∀ x ∈ linspace h r nR, h ≤ x) ∧ (linspace h r nR)[0]? = some h := by
+    rcases hR with h1 | ⟨h1, h2⟩
+    · subst h1; refine ⟨trivial, ?_, rfl⟩
+      intro x hx; simp [linspace] at hx; linarith
+    · exact ⟨linspace_strictInc _ _ h2 _, fun x hx => (linspace_mem_bounds _ _ (le_of_lt h2) _ x hx).1,
+        linspace_head _ _ _ (by omega)⟩
+  obtain ⟨a1, a2, a3, a4⟩ := hLfacts
+  obtain ⟨b1, b2, b3⟩ := hRfacts
+  have := assemble_wellFormed (linspace l (-h) nL) (linspace h r nR) h hh a1 a2 (by rw [hlen]; exact a3)
+    (by rw [hlen]; exact a4) b1 b2 b3
+  rw [hlen] at this
+  exact this
+
+/-- what `uniformCtor` returns when it returns -/
+theorem uniformCtor_eq_some (l r h : Rat) (dim : Nat) (g : Grid) (hg : uniformCtor l r h dim = some g) :
+    h ≠ 0 ∧ 0 ≤ uniformCountL l h ∧ 0 ≤ uniformCountR r h ∧ uniformCountL l h + uniformCountR r h ≤ 100000000 ∧
+    g = ⟨List.replicate dim (uniformAxisN l r h (uniformCountL l h).toNat (uniformCountR r h).toNat), h,
+          (uniformCountL l h).toNat⟩ := by
+  unfold uniformCtor at hg
+  split_ifs at hg with h0 h1 h2
+  · simp only [Option.some.injEq] at hg
+    refine ⟨h0, by omega, by omega, by omega, hg.symm⟩
+
+/-- the counts in terms of the bounds: `2 ≤ int(|l|/h)` with `l < 0` forces `h > 0` and `l ≤ -2h` -/
+theorem uniformCountL_ge_two (l h : Rat) (hl : l < 0) (hL : 2 ≤ uniformCountL l h) : 0 < h ∧ l ≤ -(2 * h) := by
+  have h2 : ((2 : Int) : Rat) ≤ rabs l / h := (le_pyInt_iff _ 2 (by norm_num)).mp hL
+  have hr : rabs l = -l := by unfold rabs; rw [if_pos hl]
+  rw [hr] at h2
+  have hh : 0 < h := by
+    by_contra hc
+    have : -l / h ≤ 0 := div_nonpos_of_nonneg_of_nonpos (by linarith) (by linarith)
+    have h2' : (2 : Rat) ≤ -l / h := by exact_mod_cast h2
+    linarith
+  have h2' : (2 : Rat) ≤ -l / h := by exact_mod_cast h2
+  rw [le_div_iff₀ hh] at h2'
+  exact ⟨hh, by linarith⟩
+
+theorem uniformCountR_ge_two (r h : Rat) (hh : 0 < h) (hR : 2 ≤ uniformCountR r h) : 2 * h ≤ r := by
+  have h2 : ((2 : Int) : Rat) ≤ r / h := (le_pyInt_iff _ 2 (by norm_num)).mp hR
+  have h2' : (2 : Rat) ≤ r / h := by exact_mod_cast h2
+  rw [le_div_iff₀ hh] at h2'
+  exact h2'
+
+/- Full-strength statement (FALSE of the code as it is, see `uniformCtor_wellFormed_full_false`):
+     ∀ l r h dim g, uniformCtor l r h dim = some g → l < 0 → 0 < h → 0 < r →
+        WellFormed g ∧ ∀ ax ∈ g.axes, truncation ax = some (l, r)
+   i.e. "whenever the constructor returns, the grid is well formed and ends at the root-searched bounds".
+   It fails exactly when `int(|l|/h) ≤ 1` or `int(r/h) ≤ 1` (known finding C13-uniform-one-point-side):
+   `uniformCtor_wellFormed_iff`, `uniformCtor_truncation` give the exact characterisation. -/
+
+/-- **regular case of the uniform constructor, for every (l, r, h, dim) it accepts**: with at least two points on each
+    side (`int(|l|/h) ≥ 2`, `int(r/h) ≥ 2`; `l < 0` is what the root search over `[-100, -h/2]` returns) every axis is
+    strictly increasing, the origin index is `int(|l|/h)` and holds 0 with neighbours `-h` and `+h`, the first point is
+    `l`, the last point is `r`, and the axis has `int(|l|/h) + 1 + int(r/h)` points. -/
+theorem uniformCtor_wellFormed_partial (l r h : Rat) (dim : Nat) (g : Grid) (hg : uniformCtor l r h dim = some g)
+    (hl : l < 0) (hL : 2 ≤ uniformCountL l h) (hR : 2 ≤ uniformCountR r h) :
+    WellFormed g ∧ g.h = h ∧ g.origin = (uniformCountL l h).toNat ∧ g.axes.length = dim ∧
+    ∀ ax ∈ g.axes, truncation ax = some (l, r) ∧
+      ax.length = (uniformCountL l h).toNat + 1 + (uniformCountR r h).toNat := by
+  obtain ⟨_, _, _, _, rfl⟩ := uniformCtor_eq_some l r h dim g hg
+  obtain ⟨hh, hl2⟩ := uniformCountL_ge_two l h hl hL
+  have hr2 := uniformCountR_ge_two r h hh hR
+  have hnL : 2 ≤ (uniformCountL l h).toNat := by omega
+  have hnR : 2 ≤ (uniformCountR r h).toNat := by omega
+  refine ⟨⟨hh, by show 1 ≤ (uniformCountL l h).toNat; omega, ?_⟩, rfl, rfl, by simp, ?_⟩
+  · intro ax hax
+    rw [List.eq_of_mem_replicate hax]
+    exact uniformAxisN_wellFormed l r h _ _ hh (Or.inr ⟨hnL, by linarith⟩) (Or.inr ⟨hnR, by linarith⟩)
+  · intro ax hax
+    rw [List.eq_of_mem_replicate hax, uniformAxisN_truncation, uniformAxisN_length]
+    refine ⟨?_, rfl⟩
+    rw [if_neg (by omega), if_neg (by omega), if_neg (by omega)]
+
+/-- **exact characterisation of when the returned grid is well formed** (h > 0, l < 0, at least one axis):
+    iff the left side has at least two points, or exactly one point that happens to be `-h` itself, and the right side
+    has at least one point.  (With exactly one right point the axis is well formed but ends at `h` instead of `r`:
+    `uniformCtor_truncation`.) -/
+theorem uniformCtor_wellFormed_iff (l r h : Rat) (dim : Nat) (g : Grid) (hg : uniformCtor l r h dim = some g)
+    (hh : 0 < h) (hl : l < 0) (hd : 1 ≤ dim) :
+    WellFormed g ↔ (2 ≤ uniformCountL l h ∨ (uniformCountL l h = 1 ∧ l = -h)) ∧ 1 ≤ uniformCountR r h := by
+  obtain ⟨_, hL0, hR0, _, rfl⟩ := uniformCtor_eq_some l r h dim g hg
+  have hmem : uniformAxisN l r h (uniformCountL l h).toNat (uniformCountR r h).toNat ∈
+      List.replicate dim (uniformAxisN l r h (uniformCountL l h).toNat (uniformCountR r h).toNat) := by
+    rw [List.mem_replicate]; exact ⟨by omega, rfl⟩
+  constructor
+  · rintro ⟨_, ho, hax⟩
+    obtain ⟨_, hm, _, hp⟩ := hax _ hmem
+    change 1 ≤ (uniformCountL l h).toNat at ho
+    change (uniformAxisN l r h _ _)[(uniformCountL l h).toNat - 1]? = some (-h) at hm
+    change (uniformAxisN l r h _ _)[(uniformCountL l h).toNat + 1]? = some h at hp
+    constructor
+    · by_cases h2 : 2 ≤ uniformCountL l h
+      · exact Or.inl h2
+      · have h1 : uniformCountL l h = 1 := by omega
+        refine Or.inr ⟨h1, ?_⟩
+        rw [h1] at hm
+        have : (uniformAxisN l r h 1 (uniformCountR r h).toNat)[0]? = some l := rfl
+        simp only [Int.toNat_one, Nat.sub_self] at hm
+        rw [this] at hm
+        exact Option.some.inj hm
+    · have hlt : (uniformCountL l h).toNat + 1 < (uniformAxisN l r h (uniformCountL l h).toNat
+          (uniformCountR r h).toNat).length := by
+        by_contra hc
+        rw [List.getElem?_eq_none (by omega)] at hp
+        simp at hp
+      rw [uniformAxisN_length] at hlt
+      omega
+  · rintro ⟨hL, hR⟩
+    refine ⟨hh, by show 1 ≤ (uniformCountL l h).toNat; omega, ?_⟩
+    intro ax hax
+    rw [List.eq_of_mem_replicate hax]
+    refine uniformAxisN_wellFormed l r h _ _ hh ?_ ?_
+    · rcases hL with h2 | ⟨h1, h2⟩
+      · obtain ⟨_, hl2⟩ := uniformCountL_ge_two l h hl h2
+        exact Or.inr ⟨by omega, by linarith⟩
+      · exact Or.inl ⟨by omega, h2⟩
+    · by_cases h2 : 2 ≤ uniformCountR r h
+      · have := uniformCountR_ge_two r h hh h2
+        exact Or.inr ⟨by omega, by linarith⟩
+      · exact Or.inl (by omega)
+
+/-- **the end points of the returned axes, for every accepted input**: the first point is `l` unless the left side is
+    empty (then 0), the last point is `r` only with at least two right points (`h` with one, 0 with none). -/
+theorem uniformCtor_truncation (l r h : Rat) (dim : Nat) (g : Grid) (hg : uniformCtor l r h dim = some g) :
+    ∀ ax ∈ g.axes, truncation ax =
+      some (if uniformCountL l h = 0 then 0 else l,
+            if uniformCountR r h = 0 then 0 else if uniformCountR r h = 1 then h else r) := by
+  obtain ⟨_, hL0, hR0, _, rfl⟩ := uniformCtor_eq_some l r h dim g hg
+  intro ax hax
+  rw [List.eq_of_mem_replicate hax, uniformAxisN_truncation]
+  have e1 : ((uniformCountL l h).toNat = 0) = (uniformCountL l h = 0) := by apply propext; omega
+  have e2 : ((uniformCountR r h).toNat = 0) = (uniformCountR r h = 0) := by apply propext; omega
+  have e3 : ((uniformCountR r h).toNat = 1) = (uniformCountR r h = 1) := by apply propext; omega
+  simp only [e1, e2, e3]
+
+/-- non-vacuity of the regular case: l = -3, r = 5/2, h = 1/2 (6 left points, 5 right points) -/
+example : uniformCtor (-3) (5/2) (1/2) 2 =
+    some ⟨[[-3, -5/2, -2, -3/2, -1, -1/2, 0, 1/2, 1, 3/2, 2, 5/2], [-3, -5/2, -2, -3/2, -1, -1/2, 0, 1/2, 1, 3/2, 2, 5/2]],
+      1/2, 6⟩ := by decide +kernel
+example : (2 : Int) ≤ uniformCountL (-3) (1/2) ∧ (2 : Int) ≤ uniformCountR (5/2) (1/2) := by decide +kernel
+/-- non-dyadic step: linspace(-1, -1/4, 4) has step 1/4; linspace(1/4, 1, 4) -/
+example : uniformCtor (-1) 1 (1/4) 1 = some ⟨[[-1, -3/4, -1/2, -1/4, 0, 1/4, 1/2, 3/4, 1]], 1/4, 4⟩ := by
+  decide +kernel
+example : linspace (-7/4) (-1/2) 3 = [-7/4, -9/8, -1/2] := by decide +kernel
+/-- the constructor raises: more than 1e8 points; negative right count -/
+example : uniformCtor (-1048576) 1 (1/256) 1 = none := by decide +kernel
+example : uniformCtor (-3) (-1) (1/2) 1 = none := by decide +kernel
+
+/-- negation witnesses of the full-strength statement (dyadic inputs, reproduced on the real constructor by the probe
+    `c13.uniform.witness`): one left point `l = -3/2, h = 1`: the axis is `[-3/2, 0, 1, 5/2]`, the neighbour of 0 is
+    `l`; no left point `l = -3/4, h = 1`: `[0, 1, 5/2]` with origin index 0; one right point `r = 3/2, h = 1`:
+    `[-5/2, -1, 0, 1]`, the axis ends at `h`, not at `r`. -/
+theorem uniformCtor_one_left_point : uniformCtor (-3/2) (5/2) 1 1 = some ⟨[[-3/2, 0, 1, 5/2]], 1, 1⟩ := by
+  decide +kernel
+theorem uniformCtor_no_left_point : uniformCtor (-3/4) (5/2) 1 1 = some ⟨[[0, 1, 5/2]], 1, 0⟩ := by
+  decide +kernel
+theorem uniformCtor_one_right_point : uniformCtor (-5/2) (3/2) 1 1 = some ⟨[[-5/2, -1, 0, 1]], 1, 2⟩ := by
+  decide +kernel
+
+theorem uniformCtor_wellFormed_full_false :
+    ¬ ∀ (l r h : Rat) (dim : Nat) (g : Grid), uniformCtor l r h dim = some g → l < 0 → 0 < h → 0 < r →
+        WellFormed g ∧ ∀ ax ∈ g.axes, truncation ax = some (l, r) := by
+  intro hall
+  have h1 := (hall (-3/2) (5/2) 1 1 _ uniformCtor_one_left_point (by norm_num) (by norm_num) (by norm_num)).1
+  have h2 := (uniformCtor_wellFormed_iff (-3/2) (5/2) 1 1 _ uniformCtor_one_left_point (by norm_num) (by norm_num)
+    (le_refl _)).mp h1
+  have hc : uniformCountL (-3/2) 1 = 1 := by decide +kernel
+  rcases h2.1 with h3 | ⟨_, h3⟩
+  · omega
+  · norm_num at h3
+
+/-- the other promise fails as well: with one right point the grid is well formed but does not end at `r` -/
+theorem uniformCtor_truncation_full_false :
+    ¬ ∀ (l r h : Rat) (dim : Nat) (g : Grid), uniformCtor l r h dim = some g → l < 0 → 0 < h → 0 < r →
+        WellFormed g → ∀ ax ∈ g.axes, truncation ax = some (l, r) := by
+  intro hall
+  have hw : WellFormed ⟨[[-5/2, -1, 0, 1]], 1, 2⟩ := by
+    refine ⟨by norm_num, by norm_num, ?_⟩
+    intro ax hax; simp at hax; subst hax
+    refine ⟨by simp [StrictInc]; norm_num, by simp, by simp, by simp⟩
+  have := hall (-5/2) (3/2) 1 1 _ uniformCtor_one_right_point (by norm_num) (by norm_num) (by norm_num) hw
+    [-5/2, -1, 0, 1] (by simp)
+  simp [truncation] at this
+  norm_num at this
+
+/-! ### the fixed-size uniform constructor (create_from_fixed_nb_of_points, spatial.py:166-186) -/
+
+/-- `nb_of_points ≤ 1` gives the one-point grid `[0]` (no neighbours of 0: outside the property's reach) -/
+theorem uniformFixedAxis_le_one (h : Rat) (nb : Nat) (hnb : nb ≤ 1) : uniformFixedAxis h nb = [0] := by
+  have : nb / 2 = 0 := by omega
+  simp [uniformFixedAxis, this]
+
+/-- **for every h > 0, nb_of_points ≥ 2 and dimension** the grid is well formed: each axis strictly increasing with
+    `2 (nb // 2) + 1` points (so an even `nb_of_points` gives `nb + 1` points), origin index `nb // 2` holding 0 with
+    neighbours `∓h`. -/
+theorem uniformFixed_wellFormed (h : Rat) (hh : 0 < h) (nb dim : Nat) (hnb : 2 ≤ nb) :
+    WellFormed (uniformFixed h nb dim) ∧ (uniformFixed h nb dim).origin = nb / 2 ∧
+    (uniformFixed h nb dim).axes.length = dim ∧ ∀ ax ∈ (uniformFixed h nb dim).axes, ax.length = 2 * (nb / 2) + 1 := by
+  have hm : 1 ≤ nb / 2 := by omega
+  generalize hmdef : nb / 2 = m at hm
+  have hax : uniformFixedAxis h nb =
+      (List.range m).map (fun i => -(((m - i : Nat) : Rat) * h)) ++ [0] ++
+        (List.range m).map (fun i => ((i + 1 : Nat) : Rat) * h) := by
+    simp [uniformFixedAxis, hmdef]
+  have hLlen : ((List.range m).map (fun i => -(((m - i : Nat) : Rat) * h))).length = m := by simp
+  have hwf := assemble_wellFormed ((List.range m).map (fun i => -(((m - i : Nat) : Rat) * h)))
+    ((List.range m).map (fun i => ((i + 1 : Nat) : Rat) * h)) h hh
+    (strictInc_map_range_lt _ m (by
+      intro i j hij hj
+      have : ((m - j : Nat) : Rat) < ((m - i : Nat) : Rat) := by exact_mod_cast (by omega : m - j < m - i)
+      have := mul_lt_mul_of_pos_right this hh
+      linarith))
+    (by
+      intro x hx
+      simp only [List.mem_map, List.mem_range] at hx
+      obtain ⟨i, hi, rfl⟩ := hx
+      have : (1 : Rat) ≤ ((m - i : Nat) : Rat) := by exact_mod_cast (by omega : 1 ≤ m - i)
+      have := mul_le_mul_of_nonneg_right this (le_of_lt hh)
+      linarith)
+    (by rw [hLlen]; exact hm)
+    (by
+      rw [hLlen]
+      have h1 : m - 1 < m := by omega
+      have h2 : m - (m - 1) = 1 := by omega
+      simp [h1, h2])
+    (strictInc_map_range _ (by
+      intro i j hij
+      have : ((i + 1 : Nat) : Rat) < ((j + 1 : Nat) : Rat) := by exact_mod_cast (by omega : i + 1 < j + 1)
+      exact mul_lt_mul_of_pos_right this hh) m)
+    (by
+      intro x hx
+      simp only [List.mem_map, List.mem_range] at hx
+      obtain ⟨i, hi, rfl⟩ := hx
+      have : (1 : Rat) ≤ ((i + 1 : Nat) : Rat) := by exact_mod_cast (by omega : 1 ≤ i + 1)
+      have := mul_le_mul_of_nonneg_right this (le_of_lt hh)
+      linarith)
+    (by
+      have h1 : 0 < m := by omega
+      simp [h1])
+  rw [hLlen, ← hax] at hwf
+  refine ⟨⟨hh, by show 1 ≤ nb / 2; omega, ?_⟩, hmdef, by simp [uniformFixed], ?_⟩
+  · intro ax hmem
+    simp only [uniformFixed] at hmem
+    rw [List.eq_of_mem_replicate hmem]
+    show StrictInc _ ∧ (uniformFixedAxis h nb)[nb / 2 - 1]? = _ ∧ (uniformFixedAxis h nb)[nb / 2]? = _ ∧
+      (uniformFixedAxis h nb)[nb / 2 + 1]? = _
+    rw [hmdef]; exact hwf
+  · intro ax hmem
+    simp only [uniformFixed] at hmem
+    rw [List.eq_of_mem_replicate hmem, hax]
+    simp; omega
+
+example : uniformFixed (1/2) 4 2 = ⟨[[-1, -1/2, 0, 1/2, 1], [-1, -1/2, 0, 1/2, 1]], 1/2, 2⟩ := by decide +kernel
+example : uniformFixed (1/2) 3 1 = ⟨[[-1/2, 0, 1/2]], 1/2, 1⟩ := by decide +kernel
 
 /-! ### non-vacuity -/
 
